@@ -89,6 +89,15 @@ def e2e(what: str):
     return run
 
 
+def receiver():
+    def run(tier: str, seed: int, prop: str) -> CompResult:
+        import t1_receiver
+
+        return t1_receiver.run(tier, seed)
+
+    return run
+
+
 def restart_default():
     def run(tier: str, seed: int, prop: str) -> CompResult:
         import t1_options
@@ -144,6 +153,18 @@ PROPS: dict[str, dict[str, Any]] = {
         "assumptions": ["argparse / pytest's own option parsing (argv, addopts, PYTEST_ADDOPTS -> config.option) is exercised, not modelled",
                         "the CPU count is an environment parameter of the model (measured with os.sched_getaffinity)",
                         "int() of non-ASCII digit strings is outside the model"],
+    },
+    "C17": {
+        "components": [system(["lifecycle", "budget", "crash", "lifecycle"], 450, 9000), receiver()],
+        "assumptions": ["deaths are injected at: before workerready, during collection, right after collectionfinish, inside a test, between tests, instead of workerfinished; "
+                        "an undecodable message is an unknown event name / a report that cannot be rebuilt / a non-tuple object",
+                        "partial writes inside one execnet message and exceptions of the receiver thread itself are outside the model",
+                        "the Lean theorems cover the receiver and worker_errordown for any scheduler; absence of stand-offs and the exactly-once accounting after lifecycle crashes are examined by the simulation monitors (not yet a theorem)"],
+    },
+    "C04": {
+        "components": [system(["plain", "collecterr", "crash"], 300, 6000), receiver(), e2e("reports")],
+        "assumptions": ["pytest's report (de)serialisation is exercised on real reports (T2 with constructed TestReport objects, T3 with real test outcomes), not modelled",
+                        "with --dist loadgroup the reported id carries the documented '@group' suffix; ids are compared modulo that suffix"],
     },
     "C18": {
         "components": [looponfail()],
